@@ -237,7 +237,7 @@ func famC02(rn *Runner) {
 	ndocs := rn.Scale(12, 200)
 	for di := 0; di < ndocs && !rn.TooMany(); di++ {
 		d := rn.genDoc(rn.Scale(45, 130))
-		env := envWithNodeVars(rn, d)
+		env := envShuffled(rn, d) // $v in document order, $w in reverse, $u in an arbitrary order
 		g := NewExprGen(rn.R.Fork(), d, env)
 		n := rn.Scale(700, 2500)
 		for i := 0; i < n && !rn.TooMany(); i++ {
@@ -264,7 +264,7 @@ func famC02(rn *Runner) {
 			case 5:
 				// $w/step[$w[k]]: the bound node-set is read (and filtered) again while the step iterates over it
 				fam = "binding-reread"
-				name := pick(rn.R, []string{"v", "w", "w"})
+				name := pick(rn.R, []string{"v", "w", "w", "u"})
 				st := &Stp{Axis: pick(rn.R, []string{"child", "child", "self", "descendant", "attribute", "parent"}), Test: NodeTest{Kind: "node"}, Preds: []Expr{g.VarFilterPred(name)}}
 				if st.Axis == "child" || st.Axis == "attribute" {
 					st.Test = NodeTest{Kind: "any"}
@@ -273,6 +273,10 @@ func famC02(rn *Runner) {
 			case 2:
 				fam = "filter-expr"
 				f := &EFilter{E: g.NodeSet(1, 3)}
+				if rn.R.Chance(1, 4) {
+					// a caller-supplied node-set in an arbitrary order: numbered in document order all the same
+					f.E = &EVar{RawQ{Local: pick(rn.R, []string{"u", "u", "w"})}}
+				}
 				f.Preds = append(f.Preds, g.Pred(1))
 				if rn.R.Chance(1, 2) {
 					f.Preds = append(f.Preds, g.Pred(1))
@@ -286,7 +290,7 @@ func famC02(rn *Runner) {
 				var base Expr
 				switch rn.R.Intn(3) {
 				case 0:
-					base = &EVar{RawQ{Local: pick(rn.R, []string{"v", "w"})}}
+					base = &EVar{RawQ{Local: pick(rn.R, []string{"v", "w", "u"})}}
 				case 1:
 					base = call("nodes")
 				default:
